@@ -148,6 +148,13 @@ func init() {
 		extra: func(c *fw.Ctx, do func(string)) {
 			deepFieldPrograms(5, do)
 			builtinLikeFields(do)
+			// many variables: slots and constants whose number needs 1, 2 or 3 operand bytes, and slot
+			// numbers that coincide with opcode numbers
+			for _, sc := range gen.ScaledFamilies(false) {
+				if strings.HasPrefix(sc.Name, "locals-") || strings.HasPrefix(sc.Name, "opbyte-") || strings.HasPrefix(sc.Name, "vars-") {
+					do(sc.Src)
+				}
+			}
 			// shadowing to depth 8 and name reuse between variables and fields
 			for d := 1; d <= 8; d++ {
 				src := "var x = 0; "
